@@ -52,6 +52,17 @@ Definition ex_dec (bs : bytes) : res (value * bytes) :=
 Definition ex_marker : bytes := [1;2;3;4;5;6;7;8;9;10;11;12;13;14;15;16].
 Definition ex_b1 : blk := mkBlk [VLong 1; VLong (-1)] [2; 1].
 Definition ex_b2 : blk := mkBlk (repeat (VLong 0) 100) (repeat 0 100).
+(* The Reader as an iterator (and its deserializing twin): whatever the block reader produced - the values of the whole
+   blocks before the damage, and whether it ended cleanly - is handed out as exactly those values, then the error once if
+   there was one, then None for EVERY later call: nothing is delivered after an error, however long the caller keeps
+   asking. *)
+Theorem C14_iterator_latches :
+  forall (vs : list value) (e : rend) (n : nat),
+    rtake (length vs + S n) (mkRI vs e false) =
+    map (fun v => Some (RValue v)) vs ++
+    match e with Clean => repeat None (S n) | Failed => Some RError :: repeat None n end.
+Proof. exact iterator_latches. Qed.
+
 Example C14_example :
   let c := mkCfg 4096 56 80 in
   read_blocks c null_codec ex_dec 5 ex_marker (firstn 21 (body ex_marker [ex_b1; ex_b2]))
